@@ -92,7 +92,9 @@ Definition check_step (want : sres) (o : obs) : bool :=
   match want, o with
   | STab t, OTab cols rows _ => tab_aligned cols rows && table_eqb (erase_rows rows) t
   | SSorted f t, OTab cols rows _ =>
-      tab_aligned cols rows && perm_b row_eqb t (erase_rows rows) && sorted_b (row_leb f) (erase_rows rows)
+      (* exactly the stable sort of the row list (as sorted() on the list-of-tuples model): rows with equal key keep
+         their order — for every table size *)
+      tab_aligned cols rows && table_eqb (erase_rows rows) (s_sort_by f t)
   | SRows t, ORowsO rows => table_eqb (erase_rows rows) t
   | SErr, OErrO => true
   | SAny, OTab cols rows _ => tab_aligned cols rows
@@ -100,7 +102,11 @@ Definition check_step (want : sres) (o : obs) : bool :=
   | _, _ => false
   end.
 Definition sch_after (sch : schema) (o : op) (ob : obs) : schema :=
-  match o, ob with OAdd name k _, OTab _ _ _ => sch ++ [(name, FB k)] | _, _ => sch end.
+  match o, ob with
+  | OAdd name k _, OTab _ _ _ => sch ++ [(name, FB k)]
+  | OAddT1 sch1 name k _, OTab _ _ _ => sch1 ++ [(name, FB k)]
+  | _, _ => sch
+  end.
 Fixpoint steps_ok (sch : schema) (cur t1 : table) (p : list op) (os : list obs) : bool :=
   match p, os with
   | [], [] => true
